@@ -16,7 +16,7 @@ META = {
         'stored into L[:, 0:n] is the factor of l[:, 0:n]; C09.STATUS - fit returns (-2, zeros) before touching data when too few '
         'breakpoints are good, every return is (status, yfit), maskpoints returns only -1/-2; C09.CLIP - indices stored through in '
         'maskpoints are clamped inside the array; C09.COEFF-AGREE - fit and value select coefficient slots through the same mask expression; C09.NOMUT - cholesky_band / cholesky_solve do not overwrite the caller\'s matrix. '
-        'NOT decided: optimality, agreement with a dense solver, polynomial reproduction, linearity in y, L*L^T = A (numerical).'),
+        'C09.SCREEN - cholesky_band screens the whole band with np.isfinite before factoring and returns a failure value, maskpoints copes with an empty failure list, and the design matrix entering the normal equations is a1 times the weights on every path. NOT decided: optimality, agreement with a dense solver, polynomial reproduction, linearity in y, L*L^T = A (numerical).'),
     'floors': {'C09.SCREEN': 3, 'C09.INT-SINK': 10, 'C09.ROWS': 4, 'C09.PROTO': 6, 'C09.SHAPE-JOIN': 1, 'C09.STATUS': 5, 'C09.CLIP': 1, 'C09.NOMUT': 2, 'C09.COEFF-AGREE': 1},
 }
 
